@@ -34,6 +34,7 @@ RULE = ("case = a grid cell (format in A/AP/PM/{'action'}/{'action_prob'}/{'pmf'
         "per-row answer has two elements, or the batch is square (batch size == answer width), or the actions contain 0/1; "
         "distinct = distinct canonical JSON of the case")
 ASSUMPTIONS = [
+    "what an inner SafeLearner found out about its learner (batch support, layout) in earlier calls of another batchedness must not change how a SafeLearner built around it calls the learner",
     "SafeLearner decides per method whether a learner understands batches: in the fallback shape the double refuses batches in predict and learn, in predict only, or in learn only; a method that takes batches must get one call per batch, a refusing one one call per row",
     "evaluator sub-check: a quarter of the cases go through SequentialIGL(seed=s) over un-batched grounded interactions (it wraps its own SequentialCB): its PMF draws must be a function of its own seed as well; RejectionCB is not covered (its seed drives rejection sampling; it predicts only for ope='dm'/'dr', which need VowpalWabbit)",
     "action sets have no duplicates, except (DUPLICATE_MEMBERS) PMF cells over list / sparse-dict actions, which sometimes offer two equal members as distinct objects: the reported probability must then be the mass at the drawn position when the returned object identifies it, and otherwise the non-zero mass of some equal member",
@@ -329,18 +330,23 @@ def eq(a, b):
 def is_hint_request(exc):
     return isinstance(exc, CobaException) and ("format" in str(exc) or "hints" in str(exc))
 
-def pre_use(inner, cell, call, times):
-    """predict `times` times through an (inner) SafeLearner with the data of one call: uses up draws of its random stream"""
+def pre_use(inner, cell, call, times, other=False, double=None):
+    """predict `times` times through an (inner) SafeLearner with the data of one call: uses up draws of its random stream.
+    With `other` the earlier use has the other batchedness (an un-batched row for a learner later fed batches, a one-row
+    batch for a learner later fed single rows) - what the wrapper learnt then must not leak into the wrapper under test."""
     for _ in range(times):
         acts = [copy.deepcopy(r["actions"]) for r in call]
         ctxs = [copy.deepcopy(r["ctx"]) for r in call]
-        if cell["shape"] == "single": inner.predict(ctxs[0], acts[0])
+        batched = cell["shape"] != "single"
+        if other and not (batched and double is not None and double.batch_only): batched = not batched
+        if not batched: inner.predict(ctxs[0], acts[0])
+        elif cell["shape"] == "single": inner.predict(Batch.List(ctxs[:1]), Batch.List(acts[:1]))
         else: inner.predict(Batch.List(ctxs) if any(c is not None for c in ctxs) else None, Batch.List(acts))
 
 def wrapped(learner, cell, plan, wrap):
     """what evaluators may be handed: an already wrapped, possibly already used SafeLearner"""
     inner = SafeLearner(learner, wrap["inner_seed"])
-    pre_use(inner, cell, plan["calls"][0], wrap["pre"])
+    pre_use(inner, cell, plan["calls"][0], wrap["pre"], wrap.get("other", False), learner)
     learner.pcalls.clear()       # the call-pattern oracle looks at the calls made through the wrapper under test only
     return inner
 
@@ -621,11 +627,11 @@ def evaluator_cases(draw, tier):
         case["evaluator"] = "igl"; case["learn"] = "on"
         cell["shape"], cell["b"] = "single", 0
     if draw(st.booleans()):
-        case["wrap"] = {"inner_seed": draw(st.integers(0, 1000)), "pre": draw(st.integers(0, 3))}
+        case["wrap"] = {"inner_seed": draw(st.integers(0, 1000)), "pre": draw(st.integers(0, 3)), "other": draw(st.booleans())}
     return case
 
 def ev_classes(case):
-    return [f"seed={case['seed']!r}", f"shape={case['cell']['shape']}", "learner already wrapped" if case.get("wrap") else "plain learner",
+    return [f"seed={case['seed']!r}", f"shape={case['cell']['shape']}", ("learner already wrapped" + (":earlier use of other batchedness" if case["wrap"].get("other") and case["wrap"]["pre"] else "")) if case.get("wrap") else "plain learner",
             f"learn={case.get('learn', 'on')}", "kwargs" if case.get("kw") else "no kwargs", "SequentialIGL" if case.get("evaluator") == "igl" else "SequentialCB",
             "experiment_seed:" + ("both" if case["exp1"] is not None and case["exp2"] is not None else "one absent" if (case["exp1"] is None) != (case["exp2"] is None) else "absent")]
 
@@ -675,7 +681,7 @@ def seed_cases(draw, tier):
     if s2 >= s1: s2 += 1       # numerically different from s1 (0 and 0.0 are the same seed)
     case = {"cell": cell, "ints": draw(st.lists(st.integers(0, 65535), min_size=4, max_size=4)), "seed1": s1, "seed2": s2}
     if draw(st.booleans()):
-        case["wrap"] = {"inner_seed": draw(st.integers(0, 1000)), "pre": draw(st.integers(0, 3))}
+        case["wrap"] = {"inner_seed": draw(st.integers(0, 1000)), "pre": draw(st.integers(0, 3)), "other": draw(st.booleans())}
     return case
 
 # ----------------------------------------------------------------------------------------- evidence
@@ -698,7 +704,7 @@ def classes(case):
     if cell["shape"] in ("row", "col") and cell["b"] == answer_width(cell): out.append("square:b==answer_width")
     if forced_hint(cell["fmt"], cell["atype"], cell["n"], []) != cell["fmt"]: out.append("forced-hint")
     if cell.get("ipmf"): out.append("integer-onehot-pmf")
-    if case.get("wrap"): out.append("wrapped-twice")
+    if case.get("wrap"): out.append("wrapped-twice" + (":earlier use of other batchedness" if case["wrap"].get("other") and case["wrap"]["pre"] else ""))
     if cell["shape"] == "fallback" and "seed1" not in case and "exp1" not in case:
         out.append("fallback:" + {"both": "predict+learn refuse batches", "predict": "only predict refuses batches", "learn": "only learn refuses batches"}[build(case)["fallback_kind"]])
     return out
